@@ -48,6 +48,8 @@ NEXT Next
 CHECK_DEADLOCK FALSE
 VIEW %(view)s
 INVARIANT EmitMeta
+INVARIANT CountCases
+POSTCONDITION PrintCases
 %(invariants)s
 """
 
@@ -84,6 +86,7 @@ def run_scenario(pid, sc, tier, seed, catalogue, out):
     res = tlcrun.run(mod, cfg_text(depth, True, invs), wd, workers=1, timeout=sc.get('timeout', 1500))
     rec = {'module': mod, 'depth': depth, 'invariants': invs, 'tlc_wall_s': round(res['wall_s'], 1),
            'states': res['distinct'], 'transitions': res['generated'], 'cmd': res['cmd']}
+    add_cases(out, 'model checking', res.get('cases', {}))
     out['scenarios'].append(rec)
     if res['error'] or res['meta'] is None:
         out['machinery'].append('%s: TLC failed: %s' % (mod, (res['error'] or 'no META line')[:1500]))
@@ -251,6 +254,7 @@ def run_tv(pid, tier, seed, out):
     wd = os.path.join(WORK, '%s-%s-%d-tv' % (pid, tier, os.getpid()))
     res, stats = tv.validate(traces, wd)
     shutil.rmtree(wd, ignore_errors=True)
+    add_cases(out, 'recorded executions', stats.get('cases', {}))
     tvo = out['tv']
     tvo.update({'traces': len(traces), 'steps': sum(len(t['steps']) for t in traces), 'record_wall_s': round(rec_s, 1),
                 'tlc_wall_s': stats['tlc_wall_s'], 'tlc_runs': stats['tlc_runs'], 'states': stats['distinct'],
@@ -342,6 +346,7 @@ def run_corpus(pid, tier, seed, out):
     rec_s = time.time() - t0
     res, stats = tv.validate(traces, wd, per_shard=60)
     shutil.rmtree(wd, ignore_errors=True)
+    add_cases(out, 'repository tests', stats.get('cases', {}))
     co.update({'tests': 'the whole suite' if tier == 'thorough' else props.CORPUS.get(pid, []), 'connections_recorded': len(traces),
                'steps': sum(len(t['steps']) for t in traces), 'record_wall_s': round(rec_s, 1), 'tlc_wall_s': stats['tlc_wall_s'],
                'tlc_runs': stats['tlc_runs'], 'states': stats['distinct'], 'transitions': stats['generated'],
@@ -421,6 +426,13 @@ ALIVE = set()
 def driver_mask(text):
     from harness import driver
     return driver.mask_addresses(text)
+
+
+def add_cases(out, where, cases):
+    """Non-vacuity: in how many of the states TLC evaluated the formulas in, each named case of spec/Scn.tla!Cases was present."""
+    acc = out.setdefault('cases', {})
+    for n, c in cases.items():
+        acc.setdefault(n, collections.Counter())[where] += c
 
 
 def strip_obs(s):
@@ -536,6 +548,11 @@ def do_check(pid, tier, seed):
             if v.get('what'):
                 print('  %s' % v['what'][:600])
 
+    # non-vacuity of the property's formulas in this run: the cases of spec/Scn.tla!Cases that belong to the property
+    own_cases = {n: dict(c) for n, c in sorted(out.get('cases', {}).items()) if n.startswith(pid + '/')}
+    never = [n for n, c in own_cases.items() if sum(c.values()) == 0]
+    for n in never:
+        print('NOTE: property=%s the situation "%s" did not occur in this run (formula checked vacuously for it)' % (pid, n))
     nontriv = sum(1 for v in out['pairs'].values() if v)
     states = sum(s['states'] for s in out['scenarios']) + out['tv'].get('states', 0) + out['corpus'].get('states', 0)
     trans = sum(s['transitions'] for s in out['scenarios']) + out['tv'].get('transitions', 0) + out['corpus'].get('transitions', 0)
@@ -571,6 +588,11 @@ def do_check(pid, tier, seed):
             'notes': notes,
             'known_findings_seen': known_lines,
             'formula_violations': out['formula_violations'],
+            'formula_cases_counted_by_tlc': {'of_this_property': own_cases, 'never_present_in_this_run': never,
+                                             'all': {n: sum(c.values()) for n, c in sorted(out.get('cases', {}).items())},
+                                             'meaning': 'states (model checking: distinct (state, step) edges; recorded executions and repository '
+                                                        'tests: recorded steps) in which the named situation of spec/Scn.tla!Cases was present when '
+                                                        'TLC evaluated the property formulas'},
             'checker_cmd': 'tlc -workers 1 <scenario>.tla (cfg generated by harness/check.py), then harness/replay.py; '
                            'TRACE_FILE=<recorded traces> tlc -workers 1 MC_TV_*.tla (generated by harness/tv.py, EXTENDS Trace)',
             'trusted_base': ['TLC 2026.09.04 / tla2tools 1.8.0', 'CommunityModules Json', 'harness/wire.py (independent frame codec)',
